@@ -22,7 +22,7 @@ Definition client_ok (cl : list client) (c : cred) : bool :=
   | Basic i s | Post i s | Both i s _ =>
       match find_client cl i with
       | None => false
-      | Some k => String.eqb (c_secret k) s      (* the storage accepted the secret *)
+      | Some k => nonempty s && String.eqb (c_secret k) s      (* a non-empty secret the storage accepted *)
       end
   end.
 
@@ -54,7 +54,10 @@ Definition decided (cl : list client) (g : store) (c : cred) (subj : tokstr) (st
 Definition contained (want : trec) (issued : ttype) (access : xtok) (rt : sid) (rt_live : bool)
     (stored : option trec) : bool :=
   let at_ok := match access, stored with
-               | (XOpaque (AT _) sub | XJwt (AT _) sub), Some t => String.eqb sub (tr_sub want) && trec_eqb t want
+               | XOpaque (AT _) sub, Some t => String.eqb sub (tr_sub want) && trec_eqb t want
+               (* a JWT access token also carries the actor the policy decided (act claim) *)
+               | XJwt (AT _) sub actor, Some t =>
+                   String.eqb sub (tr_sub want) && String.eqb actor (tr_actor want) && trec_eqb t want
                | _, _ => false
                end in
   match issued with
